@@ -179,6 +179,7 @@ def run(c):
 
     r5(c)
     r1b(c)
+    r6(c)
 
 
 def none_sentinel_sites(fn):
@@ -257,3 +258,61 @@ def r1b(c):
                    "after earlier add/remove operations on the same array the index in `from` denotes another element, so applying the patch does not give `new`", key_text="stale-value")
     else:
         c.holds("C13.R1b", repo.loc(m, fn), "make_patch/synthesised-operation", "no operation built from the original documents" if not own else "synthesised operations carry no document value")
+
+
+def r6(c):
+    from sa.flow import GuardMap
+    from sa import guards as G
+    repo = c.repo
+    c.rule("C13.R6", "an empty or falsy JSON document is still a document, and Python equality is not JSON equality: (a) RunGeneratorResult.new_json_fragment_files chooses the "
+                     "document a generator's fragment is merged into by presence (in / is None), never by the truth value of a document (`a or b or {}` restarts from the old "
+                     "file when an earlier generator legitimately emptied it); (b) the two callers that turn (old, new) JSON documents into a patch — api._patch_worker and "
+                     "PCDeployerJob.parse_result — call jsontools.make_patch for every fragment file, not guarded by `old == new` (1 == True, 2 == 2.0: a type-only change "
+                     "would be skipped by one front end and sent by the other)")
+    RES = "annet.generators.result"
+    rm = repo.module(RES)
+    fn = repo.func(RES, "RunGeneratorResult.new_json_fragment_files")
+    c.count("functions", 3)
+    pv = Provenance(fn)
+    calls = [x for x in calls_in(fn) if call_name(x).endswith("apply_json_fragment")]
+    if len(calls) != 1:
+        raise AnchorError("new_json_fragment_files: apply_json_fragment call not found")
+    prev = calls[0].args[0] if calls[0].args else None
+    for k in calls[0].keywords:
+        if k.arg in ("old", "previous", "previous_config"):
+            prev = k.value
+    bad = None
+    todo, seen_ = [prev], set()
+    while todo:
+        e = todo.pop()
+        if e is None or id(e) in seen_:
+            continue
+        seen_.add(id(e))
+        for y in ast.walk(e):
+            if isinstance(y, ast.BoolOp) and isinstance(y.op, ast.Or) and len(y.values) >= 2:
+                bad = y
+            if isinstance(y, ast.IfExp) and isinstance(y.test, (ast.Name, ast.Subscript, ast.Call)) and not isinstance(y.test, ast.Compare):
+                bad = y
+            if isinstance(y, ast.Name):
+                for d in pv.rd.defs(y):
+                    if d.value is not None and d.kind == "assign":
+                        todo.append(d.value)
+    c.check("C13.R6", bad is None, repo.loc(rm, bad if bad is not None else calls[0]), "new_json_fragment_files/previous-by-presence", f"the document the fragment is merged into is chosen by "
+            f"`{norm(bad)[:70] if bad is not None else ''}` (truth value): an intermediate document that is empty counts as missing", key_text="doc-truthiness")
+    am = repo.module("annet.api")
+    for q in ("_patch_worker", "PCDeployerJob.parse_result"):
+        f2 = repo.func("annet.api", q)
+        gm = GuardMap(f2)
+        mp = [x for x in calls_in(f2) if call_name(x).endswith("make_patch") and len(x.args) + len(x.keywords) == 2]
+        if not mp:
+            raise AnchorError(f"{q}: jsontools.make_patch(old, new) call not found")
+        for x in mp:
+            two = list(x.args) + [k.value for k in x.keywords]
+            a, b = norm(two[0]), norm(two[1])
+            eqs = []
+            for t, pol in gm.of(x):
+                for cm_ in ast.walk(t):
+                    if isinstance(cm_, ast.Compare) and len(cm_.ops) == 1 and isinstance(cm_.ops[0], (ast.Eq, ast.NotEq)) and {norm(cm_.left), norm(cm_.comparators[0])} == {a, b}:
+                        eqs.append(cm_)
+            c.check("C13.R6", not eqs, repo.loc(am, x), f"{q}/make_patch-unconditional", f"make_patch({a}, {b}) is skipped when `{norm(eqs[0]) if eqs else ''}`: documents that differ only in "
+                    "scalar types compare equal in Python, so no patch is produced although the JSON differs", key_text="py-equality")
